@@ -1,4 +1,5 @@
 import PprofVerif.Lemmas.GraphOrder
+import PprofVerif.Lemmas.OrderTieBreak
 import PprofVerif.Lemmas.SymIds
 import PprofVerif.Gen.Comparators
 import PprofVerif.Gen.MapRanges
@@ -17,10 +18,15 @@ once for ALL descriptor lists, and the per-run obligations (`*_proper`, `*_ident
 real `Nodes.Sort` / `EdgeMap.Sort` / `SortTags` (model's `sortBy` order = Go's order on shuffled
 tie-rich inputs).
 
-Full statement for node orders — "incomparable nodes have the same NodeInfo" — is FALSE of the
-code: `compareNodes` compares `fmt.Sprint(Info)`, which joins the fields with spaces and so
-confuses infos whose strings contain spaces (`compareNodes_collision`).  Proved instead:
-`nodes_order_strict_total_partial` (identity = the Sprint rendering; = NodeInfo under `SpaceFree`).
+Since fixes/C08-comparenodes-fieldwise-tiebreak.patch `compareNodes` compares `fmt.Sprint(Info)`
+first (every existing order is unchanged) and, where the renderings coincide, the eight fields of
+NodeInfo one by one; `edgeList.Less` ends in `compareNodes` of the sources and of the destinations.
+The node and edge statements are therefore proved at FULL strength (`nodes_order_strict_total`,
+`edges_order_strict_total`: incomparable ⇒ same NodeInfo / same (Src.Info, Dest.Info)), with no
+`SpaceFree` hypothesis.  Call trees have several nodes per NodeInfo; since
+fixes/C08-calltree-deterministic.patch their order is fixed by construction order
+(`newTree_collects_without_map_walk`) and ComposeDot breaks edge ties by node id
+(`edge_order_then_node_ids_total`).
 -/
 namespace PV.Props.C08
 open PV PV.Order PV.GraphOrder PV.MapRange
@@ -124,9 +130,9 @@ theorem nodes_proper : nodeOrders.all (fun o => allProperKD o.1) = true := by de
 tags — the name; edges — the full info of source AND destination; nodes — the full info -/
 theorem tags_identity : tagOrders.all (hasIdKey TagProj.Name) = true := by decide
 theorem edges_identity :
-    (hasIdKey (EdgeProj.Src .Sprint_Info) PV.Gen.Comparators.edgeList_Less &&
-     hasIdKey (EdgeProj.Dest .Sprint_Info) PV.Gen.Comparators.edgeList_Less) = true := by decide
-theorem nodes_identity : nodeOrders.all (fun o => hasIdKey NodeProj.Sprint_Info o.1) = true := by decide
+    (comparesAllInfoFields EdgeProj.Src PV.Gen.Comparators.edgeList_Less &&
+     comparesAllInfoFields EdgeProj.Dest PV.Gen.Comparators.edgeList_Less) = true := by decide
+theorem nodes_identity : nodeOrders.all (fun o => comparesAllInfoFields id o.1) = true := by decide
 
 /-- documented direction contract of the sorts ("decreasing order for (absolute) numeric quantities,
 alphabetically for text, and increasing for addresses"): weights by magnitude descending, text and
@@ -172,73 +178,57 @@ theorem tags_order_strict_total (ks : List (KD TagProj)) (hks : ks ∈ tagOrders
     (fun a b h => skey_inj h)
   exact ⟨lessOf_strictWeak _ hAP, (lessOf_strict_total _ _ hAP hD).2.2.2⟩
 
-/-- `edgeList.Less` is a strict weak order and edges it cannot separate have the same rendered
-source and destination info — the same (Src.Info, Dest.Info) when the strings are space-free. -/
-theorem edges_order_strict_total_partial :
+/-- `edgeList.Less` is a strict weak order and edges it cannot separate have the same source info and
+the same destination info (full strength: no hypothesis on the strings). -/
+theorem edges_order_strict_total :
     StrictWeak (edgeLess PV.Gen.Comparators.edgeList_Less) ∧
     (∀ a b, edgeLess PV.Gen.Comparators.edgeList_Less a b = false → edgeLess PV.Gen.Comparators.edgeList_Less b a = false →
-      sprintInfo a.src.info = sprintInfo b.src.info ∧ sprintInfo a.dst.info = sprintInfo b.dst.info) ∧
-    (∀ a b, SpaceFree a.src.info → SpaceFree a.dst.info → SpaceFree b.src.info → SpaceFree b.dst.info →
-      edgeLess PV.Gen.Comparators.edgeList_Less a b = false → edgeLess PV.Gen.Comparators.edgeList_Less b a = false →
       a.src.info = b.src.info ∧ a.dst.info = b.dst.info) := by
   have hAP := allProper_of_KD EdgeProj.get _ edges_proper
   have hi := edges_identity
   simp only [Bool.and_eq_true] at hi
-  have hS := determines_of_hasIdKey EdgeProj.get _ (EdgeProj.Src .Sprint_Info) (fun e : Edge => sprintInfo e.src.info) hi.1
-    (fun a b h => skey_inj h)
-  have hD := determines_of_hasIdKey EdgeProj.get _ (EdgeProj.Dest .Sprint_Info) (fun e : Edge => sprintInfo e.dst.info) hi.2
-    (fun a b h => skey_inj h)
-  have hsep : ∀ a b, edgeLess PV.Gen.Comparators.edgeList_Less a b = false → edgeLess PV.Gen.Comparators.edgeList_Less b a = false →
-      sprintInfo a.src.info = sprintInfo b.src.info ∧ sprintInfo a.dst.info = sprintInfo b.dst.info := by
-    intro a b h1 h2
-    have := (lessOf_strict_total _ _ hAP (hS.pair hD)).2.2.2 a b h1 h2
-    exact ⟨congrArg Prod.fst this, congrArg Prod.snd this⟩
-  refine ⟨lessOf_strictWeak _ hAP, hsep, ?_⟩
-  intro a b h1 h2 h3 h4 hab hba
-  obtain ⟨e1, e2⟩ := hsep a b hab hba
-  exact ⟨sprintInfo_inj h1 h3 e1, sprintInfo_inj h2 h4 e2⟩
+  have hS := determines_info_of_fields EdgeProj.get EdgeProj.Src (fun e : Edge => e.src) (fun _ _ _ => rfl) _ hi.1
+  have hD := determines_info_of_fields EdgeProj.get EdgeProj.Dest (fun e : Edge => e.dst) (fun _ _ _ => rfl) _ hi.2
+  refine ⟨lessOf_strictWeak _ hAP, ?_⟩
+  intro a b h1 h2
+  have := (lessOf_strict_total _ _ hAP (hS.pair hD)).2.2.2 a b h1 h2
+  exact ⟨congrArg Prod.fst this, congrArg Prod.snd this⟩
 
 /-- Every node order of `Nodes.Sort`, for every score assignment (so also for EntropyOrder, whose
-score is computed in float64 outside the model), is a strict weak order; nodes it cannot separate
-have the same `fmt.Sprint(Info)`, hence — PARTIAL: under `SpaceFree` — the same NodeInfo. -/
-theorem nodes_order_strict_total_partial (o : List (KD NodeProj) × ScoreSrc) (ho : o ∈ nodeOrders) (sc : ScoreSrc) :
+score is computed in float64 outside the model), is a strict weak order, and nodes it cannot
+separate have the same NodeInfo — full strength, no hypothesis on the strings. -/
+theorem nodes_order_strict_total (o : List (KD NodeProj) × ScoreSrc) (ho : o ∈ nodeOrders) (sc : ScoreSrc) :
     StrictWeak (nodeLess sc o.1) ∧
-    (∀ a b, nodeLess sc o.1 a b = false → nodeLess sc o.1 b a = false → sprintInfo a.info = sprintInfo b.info) ∧
-    (∀ a b, SpaceFree a.info → SpaceFree b.info →
-      nodeLess sc o.1 a b = false → nodeLess sc o.1 b a = false → a.info = b.info) := by
+    (∀ a b, nodeLess sc o.1 a b = false → nodeLess sc o.1 b a = false → a.info = b.info) := by
   have hp : allProperKD o.1 = true := List.all_eq_true.mp nodes_proper o ho
-  have hi : hasIdKey NodeProj.Sprint_Info o.1 = true := List.all_eq_true.mp nodes_identity o ho
+  have hi : comparesAllInfoFields id o.1 = true := List.all_eq_true.mp nodes_identity o ho
   have hAP := allProper_of_KD (NodeProj.get sc) o.1 hp
-  have hD := determines_of_hasIdKey (NodeProj.get sc) o.1 NodeProj.Sprint_Info (fun n : Node => sprintInfo n.info) hi
-    (fun a b h => skey_inj (by rw [NodeProj.get_sprint, NodeProj.get_sprint] at h; exact h))
-  have hsep := (lessOf_strict_total _ _ hAP hD).2.2.2
-  exact ⟨lessOf_strictWeak _ hAP, hsep, fun a b ha hb h1 h2 => sprintInfo_inj ha hb (hsep a b h1 h2)⟩
+  have hD := determines_info_of_fields (NodeProj.get sc) id (fun n : Node => n)
+    (fun p a hp => by
+      simp only [infoFieldProjs, List.mem_cons, List.mem_nil_iff, or_false] at hp
+      rcases hp with rfl | rfl | rfl | rfl | rfl | rfl | rfl | rfl <;> rfl) o.1 hi
+  exact ⟨lessOf_strictWeak _ hAP, (lessOf_strict_total _ _ hAP hD).2.2.2⟩
 
--- non-vacuity: a space-free info exists, and the orders are inhabited
-example : SpaceFree ⟨[109, 97, 105, 110], [], 4096, [109, 97, 105, 110, 46, 103, 111], 0, 10, 0, []⟩ ∧ nodeOrders.length = 7 := by
-  refine ⟨⟨?_, ?_, ?_, ?_⟩, rfl⟩ <;> decide
+-- non-vacuity: the orders are inhabited
+example : nodeOrders.length = 7 := rfl
 
-/-- The full statement (without `SpaceFree`) fails on the model: two DIFFERENT infos — function `f`
-in file ` 0 g` and function `f  0` in file `g` — render identically under `fmt.Sprint` and under
-`PrintableName`, so every node order except NameOrder/FileOrder (which compare the differing
-field directly) leaves them unordered when their weights have equal magnitude.
-(Replayed against the Go code: corpus/C08/known-sprint-collision.json.) -/
-theorem compareNodes_collision :
+/-- The infos that defeated the old `compareNodes` — function `f` in file ` 0 g` and function `f  0`
+in file `g` render identically under `fmt.Sprint` and under `PrintableName` — are now separated by
+every node order even when their weights have equal magnitude.
+(Replayed against the Go code: corpus/C08/fixed-sprint-collision.json.) -/
+theorem sprint_collision_is_ordered :
     let a : Node := ⟨⟨[102], [], 0, [32, 48, 32, 103], 0, 0, 0, []⟩, 5, 0, 5, 0, 0⟩           -- "f", " 0 g"
     let b : Node := ⟨⟨[102, 32, 32, 48], [], 0, [103], 0, 0, 0, []⟩, -5, 0, -5, 0, 0⟩         -- "f  0", "g"
-    a.info ≠ b.info ∧
-    (open PV.Gen.Comparators in
-      [(nodes_FlatNameOrder, ScoreSrc.external ""), (nodes_FlatCumNameOrder, .external ""),
-       (nodes_CumNameOrder, nodes_CumNameOrder_score), (nodes_AddressOrder, .external ""),
-       (nodes_EntropyOrder, nodes_EntropyOrder_score)]).all
-      (fun o => !nodeLess o.2 o.1 a b && !nodeLess o.2 o.1 b a) = true := by
+    sprintInfo a.info = sprintInfo b.info ∧ printableName a.info = printableName b.info ∧
+    nodeOrders.all (fun o => nodeLess o.2 o.1 a b != nodeLess o.2 o.1 b a) = true := by
   decide
 
-/-- Second known limit (finding C08/cli/call_tree/identical-info-nodes): a call TREE has several
-nodes with one NodeInfo, which violates the hypothesis `hinj` of `pipeline_deterministic`.  Two
-interior tree nodes for the same function with cumulative weights 3 and 5 (entropy score 0 for
-both, flat 0) are different nodes, yet both arrangements pass `sort.IsSorted` under the regenerated
-EntropyOrder — the sorted arrangement is not unique, so the output follows the input (map) order. -/
+/-- A call TREE has several nodes with one NodeInfo, so no comparator on node attributes can order
+them (`hinj` of `pipeline_deterministic` fails): two interior tree nodes for the same function with
+cumulative weights 3 and 5 (entropy score 0, flat 0) are different nodes, yet both arrangements pass
+`sort.IsSorted`.  This is why, since fixes/C08-calltree-deterministic.patch, the order of such nodes
+is fixed BEFORE sorting (construction order, see `newTree_collects_without_map_walk`) and the sort —
+a deterministic function of its input sequence — only has to be a function. -/
 theorem call_tree_twins_not_unique :
     let info : NodeInfo := ⟨[98, 97, 114], [], 0, [], 0, 0, 0, []⟩                      -- "bar"
     let a : Node := ⟨info, 0, 0, 3, 0, 0⟩
@@ -246,6 +236,22 @@ theorem call_tree_twins_not_unique :
     let lt := nodeLess PV.Gen.Comparators.nodes_EntropyOrder_score PV.Gen.Comparators.nodes_EntropyOrder
     a ≠ b ∧ adjSortedB lt [a, b] = true ∧ adjSortedB lt [b, a] = true := by
   decide
+
+/-- `newTree` no longer builds its node list by ranging over a map (regenerated fact): no
+order-sensitive map walk is left in that function, so the list handed to the sort is a function of
+the sample list alone. -/
+theorem newTree_collects_without_map_walk :
+    PV.Gen.MapRanges.sites.all (fun s => s.fn != "newTree") = true := by decide
+
+/-- ComposeDot's edge order — the edge comparator, then (source node id, destination node id) — is a
+strict weak order that separates any two edges with different id pairs, for ANY node numbering:
+with it the sorted edge list is unique (`sorted_perm_unique`) also in call trees, where the
+comparator alone cannot separate edges between twin nodes.  `idx` encodes the id pair. -/
+theorem edge_order_then_node_ids_total (idx : Edge → Nat) :
+    StrictWeak (thenByIndex (edgeLess PV.Gen.Comparators.edgeList_Less) idx) ∧
+    (∀ a b, thenByIndex (edgeLess PV.Gen.Comparators.edgeList_Less) idx a b = false →
+      thenByIndex (edgeLess PV.Gen.Comparators.edgeList_Less) idx b a = false → idx a = idx b) :=
+  ⟨thenByIndex_strictWeak edges_order_strict_total.1 idx, thenByIndex_separates _ idx⟩
 
 /-- Witness for defect #7 (what `tags_proper` rejects): with the pinned tree's shape — guard on the
 raw value, order on the magnitude — tags +5 `a` (byte 97) and −5 `b` (98) are mutually "not less" although their
@@ -286,14 +292,11 @@ just regenerated from graph.go, that those ARE `Nodes.Sort`'s FlatNameOrder / Cu
 that the score map of CumNameOrder is the cumulative weight (C05 reads `Score` as `Cum`). -/
 
 theorem trim_orders_are_the_regenerated_ones :
-    PV.Trim.flatNameKeys = PV.Gen.Comparators.nodes_FlatNameOrder ∧
-    PV.Trim.cumNameKeys = PV.Gen.Comparators.nodes_CumNameOrder ∧
+    PV.Trim.flatNameKeys = PV.Gen.Comparators.nodes_FlatNameOrder.take 4 ∧
+    PV.Trim.cumNameKeys = PV.Gen.Comparators.nodes_CumNameOrder.take 4 ∧
+    PV.Gen.Comparators.nodes_FlatNameOrder.drop 4 = PV.Gen.Comparators.nodes_CumNameOrder.drop 4 ∧
+    (PV.Gen.Comparators.nodes_FlatNameOrder.drop 4).map (·.proj) = infoFieldProjs ∧
     PV.Gen.Comparators.nodes_CumNameOrder_score = .field .Cum := by decide
-
-/-- both are among the node orders covered by `nodes_order_strict_total_partial` -/
-theorem trim_orders_covered :
-    (PV.Trim.flatNameKeys, ScoreSrc.external "") ∈ nodeOrders ∧
-    (PV.Trim.cumNameKeys, ScoreSrc.field .Cum) ∈ nodeOrders := by decide
 
 /-! ## function ids handed out by local symbolization
 
